@@ -442,3 +442,71 @@ Example ldc_blob_example : exists s', ldc_blob ldc_witness_vm ldc_witness_contra
 Proof. eexists. vm_compute. reflexivity. Qed.
 Example read_exact_hyp_example : forall d, Some [1; 2; 3] = Some d -> lenN d < U64 - 1.
 Proof. intros d H. injection H as <-. vm_compute. reflexivity. Qed.
+
+(* ---------------------------------------------------------------- LDC mode 2 *)
+Lemma memcopy_ok m f dst src n o m' :
+  R m f -> memcopy m dst src n o = inl m' ->
+  check_range f dst n = None /\ check_range f src n = None /\ share_byte dst src n = false /\
+  owns o dst (dst + n) = true /\
+  R m' {| stk_hi := stk_hi f; hp := hp f; data := copy_range (data f) dst src n |}.
+Proof.
+  intros HR Hm. pose proof (memcopy_refines m f dst src n o HR) as H.
+  destruct (check_range f dst n); [congruence|]. destruct (check_range f src n); [congruence|].
+  destruct (share_byte dst src n); [congruence|]. destruct (owns o dst (dst + n)); cbn [negb] in H; [|congruence].
+  destruct H as [m'' [Hm' HR']]. assert (m'' = m') by congruence. subst.
+  split; [reflexivity|]. split; [reflexivity|]. split; [reflexivity|]. split; [reflexivity | exact HR'].
+Qed.
+
+Theorem ldc_memory_ok s src_addr off c s' :
+  Inv (v_mem s) -> c <> 0 -> ldc_memory s src_addr off c = inl s' ->
+  let m := v_mem s in
+  let length := padded_len c in
+  let new_sp := v_ssp s + length in
+  let src := saturating_add U64 src_addr off in
+  v_ssp s = v_sp s /\ new_sp <= MEM_SIZE /\ v_ssp s' = new_sp /\ v_sp s' = new_sp /\ v_hp s' = v_hp s /\
+  share_byte (v_ssp s) src c = false /\
+  exists m3,
+    R m3 {| stk_hi := N.max (sv_len (stack m)) new_sp; hp := mhp m;
+            data := upd_range (copy_range (zero_range (mem_get m) (sv_len (stack m)) new_sp) (v_ssp s) src c)
+                              (v_ssp s + c) (zeros (N.to_nat (length - c))) |} /\
+    update_code_size s m3 length false = inl (v_mem s').
+Proof.
+  intros HI Hc. unfold ldc_memory. pose proof MEM_facts as [M1 [M2 M3]].
+  destruct (N.eqb_spec (v_ssp s) (v_sp s)) as [He|]; cbn [negb]; [|discriminate].
+  destruct (N.eqb_spec c 0); [contradiction|].
+  destruct (padded_len_word c) as [l|] eqn:Hp.
+  2:{ (* unpaddable length: the stack cannot grow that far *)
+      destruct (grow_stack (v_mem s) (saturating_add U64 (v_ssp s) u64_max)) as [m1|e] eqn:Hg; cbn [of_res vbind]; [|discriminate].
+      destruct (grow_stack_ok _ _ _ HI Hg) as [Hle _]. unfold saturating_add, u64_max, U64 in Hle. unfold U64 in M2. lia. }
+  apply padded_len_word_spec in Hp as [-> [Hp1 [Hp2 Hp3]]].
+  destruct (grow_stack (v_mem s) (saturating_add U64 (v_ssp s) (padded_len c))) as [m1|e] eqn:Hg; cbn [of_res vbind]; [|discriminate].
+  destruct (grow_stack_ok _ _ _ HI Hg) as [Hle HR1].
+  assert (Hsat : saturating_add U64 (v_ssp s) (padded_len c) = v_ssp s + padded_len c) by (unfold saturating_add in *; lia).
+  rewrite Hsat in *.
+  destruct (memcopy m1 (v_ssp s) (saturating_add U64 src_addr off) c _) as [m2|e] eqn:Hm; cbn [of_res vbind]; [|discriminate].
+  destruct (memcopy_ok _ _ _ _ _ _ _ HR1 Hm) as [Hd [Hs [Hsh [Ho HR2]]]]. cbn [stk_hi hp data] in HR2.
+  assert (Hsat2 : saturating_add U64 (v_ssp s) c = v_ssp s + c) by (unfold saturating_add; lia).
+  rewrite Hsat2. unfold saturating_sub.
+  destruct (N.ltb_spec 0 (padded_len c - c)) as [Hpad|Hpad].
+  - (* padding written *)
+    destruct (write_range m2 _ (v_ssp s + c) (padded_len c - c)) as [r|e]; cbn [vbind]; [|discriminate].
+    pose proof (write_refines m2 _ (v_ssp s + c) (zeros (N.to_nat (padded_len c - c))) HR2) as W.
+    destruct (write_noownerchecks m2 (v_ssp s + c) (zeros (N.to_nat (padded_len c - c)))) as [m3|e]; cbn [of_res vbind]; [|discriminate].
+    destruct W as [_ W]. cbn [stk_hi hp data] in W.
+    destruct (update_code_size s m3 (padded_len c) false) as [m4|e] eqn:Hu; cbn [vbind]; [|discriminate].
+    intros H. injection H as <-. cbn [v_ssp v_sp v_hp v_mem].
+    split; [exact He|]. split; [exact Hle|]. split; [reflexivity|]. split; [reflexivity|]. split; [reflexivity|].
+    split; [exact Hsh|]. exists m3. split; [exact W | exact Hu].
+  - (* no padding: c is word aligned *)
+    cbn [vbind]. destruct (update_code_size s m2 (padded_len c) false) as [m4|e] eqn:Hu; cbn [vbind]; [|discriminate].
+    intros H. injection H as <-. cbn [v_ssp v_sp v_hp v_mem].
+    split; [exact He|]. split; [exact Hle|]. split; [reflexivity|]. split; [reflexivity|]. split; [reflexivity|].
+    split; [exact Hsh|]. exists m2. split; [|exact Hu].
+    eapply R_ext; [exact HR2 | reflexivity | reflexivity |].
+    intros x Hx. cbn [data]. unfold upd_range. replace (padded_len c - c) with 0 by lia.
+    cbn [N.to_nat zeros repeat lenN length]. change (N.of_nat 0) with 0. rewrite N.add_0_r.
+    replace ((v_ssp s + c <=? x) && (x <? v_ssp s + c)) with false by nbs. reflexivity.
+Qed.
+
+Example ldc_memory_example : exists s', ldc_memory ldc_witness_vm 0 3 9 = inl s'.
+Proof. eexists. vm_compute. reflexivity. Qed.
